@@ -699,7 +699,53 @@ fn channel_charge(ty: usize) -> Result<(), String> {
         return Err(format!("channel at 8000 bit/s delivered a message of length {exp_len} B (body {}) after {t}ns, expected {}ns", tys[ty].name, exp_len as u128 * 1_000_000));
     }
     LIVE.store(0, SeqCst);
+    // admission to a bounded queue of a busy channel charges the same length: a second message
+    // fits iff the limit is at least its length
+    for fits in [false, true] {
+        let limit = if fits { exp_len } else { exp_len - 1 };
+        let got = quiet_catch(move || {
+            let log: Arc<Mutex<Vec<u128>>> = Default::default();
+            let mut sim = Sim::new(());
+            sim.node("tx", Sender2 { ty });
+            sim.node("rx", Receiver2 { log: log.clone() });
+            let ch = Channel::new(ChannelMetrics::new(8000, Duration::ZERO, Duration::ZERO, ChannelDropBehaviour::Queue(Some(limit))));
+            sim.gate("tx", "out").connect(sim.gate("rx", "in"), Some(ch));
+            let _ = Builder::seeded(1).quiet().build(sim.freeze()).run();
+            let v = log.lock().unwrap().clone();
+            v
+        })?;
+        let unit = exp_len as u128 * 1_000_000;
+        let exp = if fits { vec![unit, 2 * unit] } else { vec![unit] };
+        if got != exp {
+            return Err(format!(
+                "busy channel at 8000 bit/s with a queue limit of {limit} B, second message of length {exp_len} B (body {}): arrivals at {got:?}ns, expected {exp:?}ns",
+                tys[ty].name
+            ));
+        }
+        LIVE.store(0, SeqCst);
+    }
     Ok(())
+}
+
+struct Sender2 {
+    ty: usize,
+}
+impl Module for Sender2 {
+    fn at_sim_start(&mut self, _: usize) {
+        for _ in 0..2 {
+            let mut m = Message::default();
+            (types()[self.ty].set)(&mut m, 7);
+            send(m, "out");
+        }
+    }
+}
+struct Receiver2 {
+    log: Arc<Mutex<Vec<u128>>>,
+}
+impl Module for Receiver2 {
+    fn handle_message(&mut self, _: Message) {
+        self.log.lock().unwrap().push(SimTime::now().as_nanos());
+    }
 }
 
 fn hist_json(tys: &[TyOps], h: &[Op]) -> Value {
